@@ -97,6 +97,8 @@ pub struct FixtureDatabase {
     /// Version counter for definitions, incremented on each change.
     /// Used to invalidate cycle detection cache and available fixtures cache.
     pub definitions_version: Arc<std::sync::atomic::AtomicU64>,
+    /// Number of workspace scans currently running (cache eviction waits for them).
+    pub(crate) scans_in_progress: Arc<std::sync::atomic::AtomicUsize>,
     /// Cache of detected fixture cycles.
     /// Stores (definitions_version, cycles) to invalidate when definitions change.
     pub cycle_cache: Arc<DashMap<(), CycleCacheEntry>>,
@@ -140,6 +142,7 @@ impl FixtureDatabase {
             line_index_cache: Arc::new(DashMap::new()),
             ast_cache: Arc::new(DashMap::new()),
             definitions_version: Arc::new(std::sync::atomic::AtomicU64::new(0)),
+            scans_in_progress: Arc::new(std::sync::atomic::AtomicUsize::new(0)),
             cycle_cache: Arc::new(DashMap::new()),
             available_fixtures_cache: Arc::new(DashMap::new()),
             imported_fixtures_cache: Arc::new(DashMap::new()),
@@ -347,6 +350,16 @@ impl FixtureDatabase {
     /// Most LSPs rely on did_close cleanup for open files; this is a safety net for
     /// workspace scan files that accumulate over time.
     pub(crate) fn evict_cache_if_needed(&self) {
+        // A workspace scan uses the text cache as its record of what it has analysed
+        // (the import scan builds its work list from it): evict once it has finished.
+        if self
+            .scans_in_progress
+            .load(std::sync::atomic::Ordering::SeqCst)
+            > 0
+        {
+            return;
+        }
+
         // Only evict if significantly over limit to avoid frequent eviction
         if self.file_cache.len() > MAX_FILE_CACHE_SIZE {
             debug!(
